@@ -292,6 +292,46 @@ fn header_checks(run: &mut Run) -> u64 {
 }
 
 /// injectivity of the f32 rendering over a range of bit patterns, through the real Module::disassemble
+/// 64-bit float constants: doubles that are exactly widened 32-bit floats (low 29 mantissa bits zero), their two
+/// neighbours, and the double nearest to the float's shortest decimal spelling; each must read back to its own bits
+fn f64_sweep(f32_lo: u64, f32_hi: u64) -> (u64, Option<Viol>) {
+    let ty = dr::Instruction::new(rspirv::spirv::Op::TypeFloat, None, Some(1), vec![dr::Operand::LiteralBit32(64)]);
+    let mut pats: Vec<u64> = vec![];
+    for b in f32_lo..=f32_hi {
+        let x = f32::from_bits(b as u32);
+        if x.is_nan() {
+            continue;
+        }
+        let d = (x as f64).to_bits();
+        pats.extend([d, d.wrapping_add(1), d.wrapping_sub(1)]);
+        if let Ok(dec) = format!("{}", x).parse::<f64>() {
+            pats.push(dec.to_bits());
+        }
+    }
+    let mut n = 0;
+    for chunk in pats.chunks(256) {
+        let mut m = dr::Module::new();
+        m.types_global_values.push(ty.clone());
+        for b in chunk {
+            m.types_global_values.push(dr::Instruction::new(rspirv::spirv::Op::Constant, Some(1), Some(2), vec![dr::Operand::LiteralBit64(*b)]));
+        }
+        let text = m.disassemble();
+        for (k, line) in text.split('\n').filter(|l| l.contains("OpConstant")).enumerate() {
+            let bits = chunk[k];
+            let tok = line.rsplit(' ').next().unwrap_or("");
+            let ok = match tok.parse::<f64>() {
+                Ok(v) => v.to_bits() == bits || (v.is_nan() && f64::from_bits(bits).is_nan()),
+                Err(_) => false,
+            };
+            if !ok {
+                return (n, Some(viol("C07:render:Constant:LiteralBit64:f64", format!("f64 bit pattern {:#018x} is rendered as {:?}, which does not read back to it", bits, line), json!({"kind": "c07-f64", "bits": format!("{:#018x}", bits)}))));
+            }
+            n += 1;
+        }
+    }
+    (n, None)
+}
+
 fn f32_sweep(lo: u64, hi: u64) -> (u64, Option<Viol>) {
     let g = golden();
     let ty = dr::Instruction::new(rspirv::spirv::Op::TypeFloat, None, Some(1), vec![dr::Operand::LiteralBit32(32)]);
@@ -322,6 +362,82 @@ fn f32_sweep(lo: u64, hi: u64) -> (u64, Option<Viol>) {
         x = end + 1;
     }
     (n, None)
+}
+
+/// Narrow typed constants, exhaustively: every 16-bit pattern (x four high halves) behind an 8-/16-bit integer or
+/// 16-bit float type, and strided 32-bit patterns behind 32-bit types. How they are spelled is free; the rendering must
+/// not panic and two different literal words must never be spelled alike (injectivity).
+pub fn narrow_sweep(tier: Tier) -> (u64, Vec<Viol>) {
+    let types: Vec<(&str, dr::Instruction)> = vec![
+        ("i8", dr::Instruction::new(rspirv::spirv::Op::TypeInt, None, Some(1), vec![dr::Operand::LiteralBit32(8), dr::Operand::LiteralBit32(1)])),
+        ("u8", dr::Instruction::new(rspirv::spirv::Op::TypeInt, None, Some(1), vec![dr::Operand::LiteralBit32(8), dr::Operand::LiteralBit32(0)])),
+        ("i16", dr::Instruction::new(rspirv::spirv::Op::TypeInt, None, Some(1), vec![dr::Operand::LiteralBit32(16), dr::Operand::LiteralBit32(1)])),
+        ("u16", dr::Instruction::new(rspirv::spirv::Op::TypeInt, None, Some(1), vec![dr::Operand::LiteralBit32(16), dr::Operand::LiteralBit32(0)])),
+        ("f16", dr::Instruction::new(rspirv::spirv::Op::TypeFloat, None, Some(1), vec![dr::Operand::LiteralBit32(16)])),
+        ("i32", dr::Instruction::new(rspirv::spirv::Op::TypeInt, None, Some(1), vec![dr::Operand::LiteralBit32(32), dr::Operand::LiteralBit32(1)])),
+    ];
+    let highs: Vec<u32> = match tier {
+        Tier::Quick => vec![0x0000, 0xFFFF, 0x0001],
+        Tier::Thorough => vec![0x0000, 0xFFFF, 0x0001, 0x8000, 0x7FFF, 0x00FF],
+    };
+    let res: Vec<(u64, Vec<Viol>)> = types
+        .par_iter()
+        .map(|(tn, ty)| {
+            let mut seen: HashMap<String, u32> = HashMap::new();
+            let mut viols = vec![];
+            let mut n = 0u64;
+            for hi in &highs {
+                let mut m = dr::Module::new();
+                m.types_global_values.push(ty.clone());
+                for lo in 0..=0xFFFFu32 {
+                    m.types_global_values.push(dr::Instruction::new(rspirv::spirv::Op::Constant, Some(1), Some(2), vec![dr::Operand::LiteralBit32((hi << 16) | lo)]));
+                }
+                let text = match guarded(|| m.disassemble()) {
+                    Ok(t) => t,
+                    Err(p) => {
+                        // find one pattern that panics on its own (for the replay)
+                        let mut culprit = None;
+                        for lo in 0..=0xFFFFu32 {
+                            let mut m1 = dr::Module::new();
+                            m1.types_global_values.push(ty.clone());
+                            m1.types_global_values.push(dr::Instruction::new(rspirv::spirv::Op::Constant, Some(1), Some(2), vec![dr::Operand::LiteralBit32((hi << 16) | lo)]));
+                            if guarded(|| m1.disassemble()).is_err() {
+                                culprit = Some((hi << 16) | lo);
+                                break;
+                            }
+                        }
+                        viols.push(viol(format!("C07:panic@{}", crate::report::panic_class(&p)), format!("disassembling an OpConstant of type {} with literal word {:#010x?} panics: {}", tn, culprit, p), json!({"kind": "c07-narrow", "type": tn, "word": culprit})));
+                        continue;
+                    }
+                };
+                for (k, line) in text.split('\n').skip(2).enumerate() {
+                    if !line.contains("OpConstant") {
+                        continue;
+                    }
+                    let word = (hi << 16) | (k as u32 & 0xFFFF);
+                    let tok = line.rsplit(' ').next().unwrap_or("").to_string();
+                    n += 1;
+                    // NaN payloads are excepted by the statement
+                    if tok.to_ascii_lowercase().contains("nan") {
+                        continue;
+                    }
+                    if let Some(prev) = seen.insert(tok.clone(), word) {
+                        if prev != word && viols.len() < 3 {
+                            viols.push(viol(format!("C07:collision:Constant:{}", tn), format!("OpConstant of type {}: literal words {:#010x} and {:#010x} are both spelled {:?}", tn, prev, word, tok), json!({"kind": "c07-narrow", "type": tn, "words": [prev, word]})));
+                        }
+                    }
+                }
+            }
+            (n, viols)
+        })
+        .collect();
+    let mut n = 0;
+    let mut all = vec![];
+    for (k, v) in res {
+        n += k;
+        all.extend(v);
+    }
+    (n, all)
 }
 
 pub fn run(tier: Tier) -> Run {
@@ -387,6 +503,10 @@ pub fn run(tier: Tier) -> Run {
         }
     }
     n += header_checks(&mut run);
+    let (nn, nv) = narrow_sweep(tier);
+    n += nn;
+    run.add_all(nv);
+    run.outcome("narrow_typed_constants", nn);
     // f32 rendering injectivity: quick = 2^22 strided patterns + boundaries; thorough = all 2^32
     let chunks: Vec<(u64, u64)> = match tier {
         Tier::Thorough => (0..4096u64).map(|c| (c << 20, ((c + 1) << 20) - 1)).collect(),
@@ -401,6 +521,17 @@ pub fn run(tier: Tier) -> Run {
         }
     }
     run.outcome("f32_patterns", fsum);
+    // f64: the same strided float patterns, widened (quick: every 16th chunk)
+    let dres: Vec<(u64, Option<Viol>)> = chunks.par_iter().step_by(tier.pick(16, 4)).map(|(a, b)| f64_sweep(*a, (*a + 255).min(*b).min(u32::MAX as u64))).collect();
+    let mut dsum = 0u64;
+    for (k, v) in dres {
+        dsum += k;
+        if let Some(v) = v {
+            run.add(v);
+        }
+    }
+    run.outcome("f64_patterns", dsum);
+    let fsum = fsum + dsum;
     run.set("evaluations", json!(n + fsum));
     run.set("distinct_nontrivial", json!(collisions.len()));
     run.set("rule", json!("every U-inst shape of every opcode embedded in a loadable module (as in C01), typed constants of 12 types x boundary bit patterns (type before and after the constant), OpExtInst with GLSL / OpenCL / unknown sets x every table number and out-of-table numbers, 228 header variations, and f32 bit patterns (thorough: all 2^32) through the real Module::disassemble. Oracle 1: one line per instruction in assembly order, token-exact against the reference renderer; oracle 2: the reference reader reconstructs assemble()[5..] from the text; a global map text -> words asserts no collision. distinct_nontrivial = distinct disassembly texts entered in the collision map"));
